@@ -69,7 +69,7 @@ class CurrentProtocolServicesSupported(Property):
 
     def __init__(self):
         if _debug: CurrentProtocolServicesSupported._debug("__init__")
-        Property.__init__(self, 'protocolServicesSupported', ServicesSupported, default=None, optional=True, mutable=False)
+        Property.__init__(self, 'protocolServicesSupported', ServicesSupported, default=None, optional=False, mutable=False)
 
     def ReadProperty(self, obj, arrayIndex=None):
         if _debug: CurrentProtocolServicesSupported._debug("ReadProperty %r %r", obj, arrayIndex)
